@@ -580,6 +580,14 @@ func checkC04(c caseC04, rec *ev.Rec) *ev.Failure {
 				lies = append(lies, gen.Lie{F: "count", V: v})
 			}
 		}
+		// a self-consistent index (count, records, CRC, backward size all
+		// agree) that lists fewer or more records than the stream has blocks
+		for k := 1; k <= len(st.Blocks); k++ {
+			lies = append(lies, gen.Lie{F: "droprecs", V: uint64(k)})
+		}
+		if n > 0 {
+			lies = append(lies, gen.Lie{F: "droprecs", V: ^uint64(0)}, gen.Lie{F: "droprecs", V: ^uint64(2)})
+		}
 		bsz := uint64(binary.LittleEndian.Uint32(s[lay.Find("ft_bsize")[0].Off:]))
 		for _, v := range []uint64{bsz + 1, bsz | 1<<30, bsz | 1<<31, 0xFFFFFFFF} {
 			if v != bsz {
@@ -610,7 +618,7 @@ func checkC04(c caseC04, rec *ev.Rec) *ev.Failure {
 
 func TestC04(t *testing.T) {
 	rec := ev.New("C04", "fault_enumeration")
-	rec.Rule = "rapid draws valid single-stream .xz files (library / reference generator with size fields, extra padding, empty blocks / liblzma; all four check types; <= ~2 KiB); per file: every single-bit flip, insertion of {00,FF,21,drawn} and deletion at every offset, substitution by {00,FF,80,7F} at every offset, 10-40 drawn bursts <= 32 bits, structural edits with re-sealed CRC32 (size fields altered / added with wrong value, index records, record count, backward size, header vs footer flags, non-zero header/block/index padding, reserved bits, unsupported check / filter ids, filter count, property size, dictionary code, wrong check value), generator-built streams with one wrong metadata value of any size (block header sizes, record count, index records, backward size; 0, +-1, +4, +128, 2^31, 2^32, 2^63-1) and correct CRCs, and sweeps of ALL 256 values of each stream-flags byte (header only / footer only / both) and of every block-flags byte, re-sealed; oracle 1 (check-carrying files, any modification): never err == nil with content != original; oracle 2 (structural edits, also check-less): err != nil; evaluations = damaged files decoded; non-trivial = modification changes the file; distinct = hash(fault kind, field, bytes)"
+	rec.Rule = "rapid draws valid single-stream .xz files (library / reference generator with size fields, extra padding, empty blocks / liblzma; all four check types; <= ~2 KiB); per file: every single-bit flip, insertion of {00,FF,21,drawn} and deletion at every offset, substitution by {00,FF,80,7F} at every offset, 10-40 drawn bursts <= 32 bits, structural edits with re-sealed CRC32 (size fields altered / added with wrong value, index records, record count, backward size, header vs footer flags, non-zero header/block/index padding, reserved bits, unsupported check / filter ids, filter count, property size, dictionary code, wrong check value), generator-built streams with one wrong metadata value of any size (block header sizes, record count, index records, backward size; 0, +-1, +4, +128, 2^31, 2^32, 2^63-1) and correct CRCs, streams whose index consistently lists fewer or more records than there are blocks, and sweeps of ALL 256 values of each stream-flags byte (header only / footer only / both) and of every block-flags byte, re-sealed; oracle 1 (check-carrying files, any modification): never err == nil with content != original; oracle 2 (structural edits, also check-less): err != nil; evaluations = damaged files decoded; non-trivial = modification changes the file; distinct = hash(fault kind, field, bytes)"
 	rec.Assumptions = []string{"a payload modification that survives the range coder and yields a CRC32/CRC64/SHA-256 collision is ignored (probability <= 2^-32 per case)", "declared dictionaries <= 8 KiB so that each of the ~50 000 readers per file is cheap"}
 	drive(t, rec, drawC04, checkC04)
 }
